@@ -25,9 +25,9 @@ def run(ctx):
     ctx.rule('C11.R3', 'refusal keeps the stream framed: Put drains take(len) before replying; handlers return the reply result', floor=3)
     ctx.rule('C11.R4', 'no fs call on the refusal (safe_join None) edge', floor=3)
     hub = Hub(ctx, F, 'C11.R1')
-    r1(ctx, F, hub)
-    r2(ctx, F)
-    r34(ctx, F, hub)
+    ctx.attempt(r1, ctx, F, hub)
+    ctx.attempt(r2, ctx, F)
+    ctx.attempt(r34, ctx, F, hub)
 
 
 def r1(ctx, F, hub):
